@@ -26,6 +26,11 @@ KV(k, v) == [k |-> k, v |-> v]
 XVals(i) == {NilXV, StrXV(Tok("s", i)), IntXV(1), IntXV(2), MapXV(<<KV("n", StrXV(Tok("t", i)))>>), MapXV(<<KV("n", NilXV)>>)}
 Extras(i) == {<<>>} \cup {<<KV("k", v)>> : v \in XVals(i)} \cup {<<KV("j", StrXV(Tok("r", i))), KV("k", v)>> : v \in XVals(i)}
              \cup {<<KV("j", StrXV(Tok("r", i)))>>}
+BoolXV(n) == [x |-> "bool", s |-> "", n |-> n, m |-> <<>>]
+MinXV(n) == [x |-> "min", s |-> "", n |-> n, m |-> <<>>]
+IMapXV(m) == [x |-> "imap", s |-> "", n |-> 0, m |-> m]
+NestExtras(i) == {<<>>} \cup {<<KV("k", v)>> : v \in {NilXV, StrXV(Tok("s", i)), IMapXV(<<>>), IMapXV(<<KV("n", IntXV(0))>>), IMapXV(<<KV("n", IntXV(3))>>),
+                                                      IMapXV(<<KV("n", IntXV(5))>>), IMapXV(<<KV("j", IntXV(7)), KV("n", IntXV(0))>>)}}
 Hdr(i) == {Msg(r, "", "", c) : r \in {"", "a", "b"}, c \in {"", Tok("x", i)}}
           \cup {Msg("", n, "", c) : n \in {"a", "b"}, c \in {"", Tok("x", i)}}
           \cup {Msg("", "", t, c) : t \in {"a", "b"}, c \in {"", Tok("x", i)}} \cup {NilM}
@@ -50,11 +55,16 @@ Alphabet(i) ==
     [] Fam = "extra" -> {[EmptyM EXCEPT !.extra = e] : e \in Extras(i)}
     [] Fam = "list" -> {[items |-> <<>>]} \cup {[items |-> <<a>>] : a \in ListItems(i)} \cup {[items |-> <<a, b>>] : a \in ListItems(i), b \in ListItems(i) \ {[EmptyM EXCEPT !.extra = <<KV("k", NilXV)>>]}}
     [] Fam = "map" -> {[kv |-> e] : e \in Extras(i)}
+    [] Fam = "mapi" -> {[kv |-> a \o b] : a \in {<<>>} \cup {<<KV("j", IntXV(7))>>}, b \in {<<>>} \cup {<<KV("k", IntXV(n))>> : n \in {0, 3, 5}}}
+    [] Fam = "mapb" -> {[kv |-> a \o b] : a \in {<<>>} \cup {<<KV("j", BoolXV(1))>>}, b \in {<<>>} \cup {<<KV("k", BoolXV(n))>> : n \in {0, 1}}}
+    [] Fam = "mapm" -> {[kv |-> a \o b] : a \in {<<>>} \cup {<<KV("j", MinXV(7))>>}, b \in {<<>>} \cup {<<KV("k", MinXV(n))>> : n \in {0, 3, 5}}}
+    [] Fam = "nest" -> {[kv |-> e] : e \in NestExtras(i)}
+    [] Fam = "extran" -> {[EmptyM EXCEPT !.extra = e] : e \in NestExtras(i)}
     [] Fam = "str" -> {[s |-> ""], [s |-> Tok("x", i)]}
     [] Fam = "int" -> {[n |-> 0], [n |-> 1], [n |-> 2]}
     [] Fam = "acc" -> {[s |-> "", n |-> 0], [s |-> Tok("x", i), n |-> 1], [s |-> "", n |-> 2]}
     [] Fam = "plain" -> {[n |-> 0], [n |-> 1], [n |-> 2]}
-Kind == CASE Fam \in {"hdr", "calls", "calls3", "callsT", "calls2", "many", "meta", "extra"} -> "msg" [] OTHER -> Fam
+Kind == CASE Fam \in {"hdr", "calls", "calls3", "callsT", "calls2", "many", "meta", "extra", "extran"} -> "msg" [] Fam = "nest" -> "map" [] OTHER -> Fam
 Paths == IF Kind = "msg" THEN {"cm", "cms"} ELSE {"ci"}      \* "graph" behaves as "cms" / "ci" in the transcription
 
 Init == cs = <<>> /\ Fam \in Fams
@@ -75,7 +85,7 @@ LawFor(path) ==
           LET pre == Cat(path, Kind, SubSeq(cs, 1, i), fxc)
               res == IF pre.o = "ok" THEN Cat(path, Kind, <<pre.v>> \o SubSeq(cs, i + 1, n), fxc) ELSE pre
           IN RechunkOK(full, pre, res)
-     /\ (n >= 2 \/ path = "cm") => Expect(Kind, cs, full)
+     /\ (n >= 2 \/ path = "cm") => Expect(Kind, cs, full, ElemOf(Kind, cs, fxc))
 ModelLaw == Explained \/ \A path \in Paths : (cs # <<>> \/ path = "cm") => LawFor(path)
 (* determinism of concatToolCalls: the result does not depend on the iteration order of the grouping map *)
 CallOrderFree == Kind = "msg" /\ cs # <<>> =>
